@@ -1468,6 +1468,13 @@ def install(it):
             return 0
         raise Unsupported("timedelta(...) other than timedelta(seconds=x)")
     E["datetime.timedelta"] = Native("timedelta", _timedelta)
+
+    def _fromtimestamp(it_, a, k):
+        # A-time: an instant IS its number of time units since the epoch (datetimes are tagged integers); only the tz-aware form
+        if a and isinstance(a[0], (int, float)) and not isinstance(a[0], bool) and float(a[0]) == int(a[0]) and k.get("tz", a[1] if len(a) > 1 else None) is not None:
+            return SV(z3.IntVal(int(a[0])), "int", tag="datetime")
+        raise Unsupported("datetime.fromtimestamp(...) other than fromtimestamp(<whole number>, tz=...)")
+    E["datetime.datetime.fromtimestamp"] = Native("fromtimestamp", _fromtimestamp)
     E["collections.deque"] = Native("deque", _deque)
     E["collections.OrderedDict"] = Native("OrderedDict", lambda it_, a, k: _dict(it_, a, k))
     E["weakref.WeakKeyDictionary"] = Native("WeakKeyDictionary", lambda it_, a, k: _dict(it_, a, k))
